@@ -6,8 +6,11 @@ import (
 	"fmt"
 	"math/rand"
 	"os"
+	"os/exec"
 	"path/filepath"
 	"strings"
+	"sync"
+	"sync/atomic"
 	"time"
 	"unicode/utf16"
 
@@ -134,6 +137,7 @@ func (schemaStream) Generate(rng *rand.Rand, tier string, emit func(Case)) {
 			emit(Case{"op": "verdicts", "doc": docToProto(d), "label": label})
 		}
 	}
+	emit(Case{"op": "firstuse", "processes": 12})
 	for _, d := range []any{obj(), obj("cdiVersion", jstr("1.0.0")), obj("cdiVersion", jstr("1.0.0"), "kind", jstr("a/b"), "devices", jarr{})} {
 		emit(Case{"op": "verdicts", "doc": docToProto(d), "label": "tiny"})
 	}
@@ -321,6 +325,22 @@ func (schemaStream) Execute(c Case) {
 			}
 		}
 		obs["aux"] = aux
+	case "firstuse":
+		// the very first use of the builtin schema in a process, by many goroutines at once, on an invalid document
+		self, _ := os.Executable()
+		accepted, ran := 0, 0
+		for k := 0; k < kindIdx(c["processes"]); k++ {
+			out, err := exec.Command(self, "child", "schemafirstuse").Output()
+			if err != nil {
+				continue
+			}
+			var n int
+			if _, err := fmt.Sscan(string(out), &n); err == nil {
+				accepted += n
+				ran++
+			}
+		}
+		obs["accepted"], obs["ran"] = accepted, ran
 	case "typed":
 		s := protoToSpec(c["spec"])
 		for _, k := range []string{"typed", "fileJson", "fileYaml", "readWithValidator", "writeWithValidator"} {
@@ -388,3 +408,37 @@ func repoRoot() string {
 }
 
 var _ = json.Marshal
+
+func init() { childModes["schemafirstuse"] = childSchemaFirstUse }
+
+// childSchemaFirstUse: 32 goroutines released together validate documents the builtin schema must reject, as the
+// first thing this process does with the schema package; prints how many validations accepted.
+func childSchemaFirstUse(args []string) int {
+	docs := [][]byte{
+		[]byte(`{"kind":"vendor.com/class","devices":[{"name":"d","containerEdits":{"env":["A=b"]}}]}`),                              // no cdiVersion
+		[]byte(`{"cdiVersion":"1.0.0","kind":"vendor.com/class","devices":[{"name":"d","containerEdits":{"env":"A=b"}}]}`),           // env is not a list
+		[]byte(`{"cdiVersion":"1.0.0","kind":"vendor.com/class","devices":[{"name":"d","containerEdits":{"additionalGids":[-1]}}]}`), // out of range
+		[]byte("cdiVersion: 1.0.0\nkind: vendor.com/class\ndevices: not-a-list\n"),                                                   // devices is not a list
+	}
+	var accepted int64
+	var wg sync.WaitGroup
+	start := make(chan struct{})
+	for g := 0; g < 32; g++ {
+		wg.Add(1)
+		go func(g int) {
+			defer wg.Done()
+			defer func() { _ = recover() }()
+			<-start
+			if schema.BuiltinSchema().ValidateData(docs[g%len(docs)]) == nil {
+				atomic.AddInt64(&accepted, 1)
+			}
+			if g%2 == 0 && schema.ValidateData(docs[(g+1)%len(docs)]) == nil { // the active schema is the builtin one by default
+				atomic.AddInt64(&accepted, 1)
+			}
+		}(g)
+	}
+	close(start)
+	wg.Wait()
+	fmt.Println(accepted)
+	return 0
+}
